@@ -8,10 +8,10 @@ package main
 import (
 	"fmt"
 	"go/constant"
-	"math/big"
-	"sort"
 	"go/token"
 	"go/types"
+	"math/big"
+	"sort"
 	"strconv"
 	"strings"
 
@@ -25,7 +25,7 @@ func shortQual(p *types.Package) string {
 	return shortName(p.Path())
 }
 
-func typeStr(t types.Type) string { return types.TypeString(t, shortQual) }
+func typeStr(t types.Type) string { return canonTypeString(types.TypeString(t, shortQual)) }
 
 // fnName gives a short, stable name for a function.
 func fnName(f *ssa.Function) string {
@@ -36,16 +36,20 @@ func fnName(f *ssa.Function) string {
 		// anonymous: parent$N
 		return fnName(f.Parent()) + "$" + strings.TrimPrefix(f.Name(), f.Parent().Name()+"$")
 	}
+	name := f.Name()
+	if fo, ok := f.Object().(*types.Func); ok {
+		name = funcObjName(fo) // reference spelling of a renamed function
+	}
 	if recv := f.Signature.Recv(); recv != nil {
-		return "(" + typeStr(recv.Type()) + ")." + f.Name()
+		return "(" + typeStr(recv.Type()) + ")." + name
 	}
 	if f.Pkg != nil {
-		return shortQual(f.Pkg.Pkg) + "." + f.Name()
+		return shortQual(f.Pkg.Pkg) + "." + name
 	}
 	if f.Object() != nil && f.Object().Pkg() != nil {
-		return shortQual(f.Object().Pkg()) + "." + f.Name()
+		return shortQual(f.Object().Pkg()) + "." + name
 	}
-	return f.Name()
+	return name
 }
 
 type termer struct {
@@ -183,10 +187,10 @@ func (t *termer) val(v ssa.Value) string {
 		return "&local." + x.Comment
 	case *ssa.FieldAddr:
 		st := x.X.Type().Underlying().(*types.Pointer).Elem().Underlying().(*types.Struct)
-		return "&" + t.deref(x.X) + "." + st.Field(x.Field).Name()
+		return "&" + t.deref(x.X) + "." + fieldName(st.Field(x.Field))
 	case *ssa.Field:
 		st := x.X.Type().Underlying().(*types.Struct)
-		return t.val(x.X) + "." + st.Field(x.Field).Name()
+		return t.val(x.X) + "." + fieldName(st.Field(x.Field))
 	case *ssa.IndexAddr:
 		base := ""
 		if _, isPtr := x.X.Type().Underlying().(*types.Pointer); isPtr {
